@@ -74,6 +74,24 @@ def prepare(project: Any, inttime: bool = True, tabulate: bool = True, scenario:
     return info
 
 
+def prepare_next_scenario(project: Any, sc: int, info: dict, inttime: bool = True, tabulate: bool = True) -> None:
+    """what Project.schedule() does at the top of its scenario loop for a further scenario (concrete, untraced)"""
+    from scriptplan.core.property import AttributeBase
+
+    with contextlib.redirect_stderr(io.StringIO()):
+        AttributeBase.setMode(1)
+        project.prepareScenario(sc)
+        AttributeBase.setMode(2)
+    if tabulate:
+        tabulate_calendars(project, sc, info)
+    if inttime:
+        for t in project.tasks:
+            for attr in ("start", "end", "minstart", "maxstart", "minend", "maxend"):
+                v = t.get(attr, sc)
+                if isinstance(v, datetime):
+                    t[(attr, sc)] = to_int(v, info["base"])
+
+
 def tabulate_calendars(project: Any, sc: int, info: dict) -> None:
     size = info["size"]
     info["onshift"] = {}
